@@ -102,10 +102,10 @@ CHECKS['C11'] = dict(
     note=TB + 'core::fmt; summary R (C05).')
 
 CHECKS['C06'] = dict(
-    category='other', design_ref='DESIGN.md section 5 C06',
-    technique=ABSINT + ' with generalisation (widening with thresholds + candidate relations checked inductively) at loop heads; modular: the three scanning helpers are analysed alone and replaced by the summaries they establish; unsafe preconditions as obligations',
-    text='CLAUSE decided: str_to_dec, from_str and the TryFrom<&str|String> forwarders never panic and never read outside the string, for slices of every length 0..=isize::MAX: no bounds-check, arithmetic-overflow (usize/isize), cast or debug-assertion failure edge is feasible, and at each of the 14 unsafe call sites of the parser the precondition (get_unchecked(n..): n <= len; read_unaligned::<u64>: len >= 8) holds. NOT decided: the accepted grammar, the value returned and the completeness of overflow detection (the known value-level defect from_str("440282366920938463463374607431768211456") = Ok(10^38) is outside this clause).',
-    note=TB + 'slice/pointer models track lengths only.')
+    category='other', design_ref='DESIGN.md section 5 C06, section 12.11 (value clause)',
+    technique=ABSINT + ' with generalisation (widening with thresholds + candidate relations checked inductively) at loop heads; modular: the three scanning helpers are analysed alone and replaced by the summaries they establish; unsafe preconditions as obligations; value clause: the scanners replaced by a value-level contract with ghost quantities (digit count, digits as a number), the accumulation arithmetic read off the MIR of accum_coeff',
+    text='CLAUSES decided: (1) str_to_dec, from_str and the TryFrom<&str|String> forwarders never panic and never read outside the string, for slices of every length 0..=isize::MAX: no bounds-check, arithmetic-overflow (usize/isize), cast or debug-assertion failure edge is feasible, and at each of the 14 unsafe call sites of the parser the precondition (get_unchecked(n..): n <= len; read_unaligned::<u64>: len >= 8) holds. (2) magnitude of the result, under contract A of the scanners (assumed: maximal digit prefix consumed, accumulator = old*10^k + digits folded modulo 2^128 resp. saturating as its body does): every Ok((c, e)) path has c = +-D with D (the literal\'s digits as a number) <= i128::MAX implied by the path and e = +-exponent - fractional digits; every Err(InternalOverflow) path implies D > i128::MAX - i.e. an overflowed accumulation is never accepted and a fitting coefficient never rejected as overflow. NOT decided: the accepted grammar, the association of sign bytes with signs, the SWAR digit conversion (inside contract A).',
+    note=TB + 'slice/pointer models track lengths only; contract A. Two defects found by clause (2) - a wrapped 39-digit coefficient accepted, e.g. from_str("440282366920938463463374607431768211456") = Ok(10^38), and literals with many leading fractional zeros rejected as overflow - are repaired by a fix: commit.')
 
 CHECKS['C07'] = dict(
     category='other', design_ref='DESIGN.md section 5 C07 (as built: section 12.10)',
